@@ -483,6 +483,8 @@ class StreamResetOutgoingParam:
 
     @classmethod
     def parse(cls, data: bytes) -> "StreamResetOutgoingParam":
+        if len(data) < 12 or len(data) % 2:
+            raise ValueError("SCTP outgoing SSN reset parameter has an invalid length")
         request_sequence, response_sequence, last_tsn = unpack_from("!LLL", data)
         streams = []
         for pos in range(12, len(data), 2):
@@ -506,6 +508,8 @@ class StreamAddOutgoingParam:
 
     @classmethod
     def parse(cls, data: bytes) -> "StreamAddOutgoingParam":
+        if len(data) < 8:
+            raise ValueError("SCTP add outgoing streams parameter is truncated")
         request_sequence, new_streams, reserved = unpack_from("!LHH", data)
         return cls(request_sequence=request_sequence, new_streams=new_streams)
 
@@ -520,6 +524,8 @@ class StreamResetResponseParam:
 
     @classmethod
     def parse(cls, data: bytes) -> "StreamResetResponseParam":
+        if len(data) < 8:
+            raise ValueError("SCTP re-configuration response parameter is truncated")
         response_sequence, result = unpack_from("!LL", data)
         return cls(response_sequence=response_sequence, result=result)
 
@@ -999,7 +1005,12 @@ class RTCSctpTransport(AsyncIOEventEmitter):
             for param in chunk.params:
                 cls = RECONFIG_PARAM_TYPES.get(param[0])
                 if cls is not None:
-                    await self._receive_reconfig_param(cls.parse(param[1]))
+                    try:
+                        reconfig_param = cls.parse(param[1])
+                    except ValueError:
+                        # ignore malformed parameters
+                        continue
+                    await self._receive_reconfig_param(reconfig_param)
 
         # server
         elif isinstance(chunk, InitChunk) and self.is_server:
